@@ -60,9 +60,8 @@ BASE_OBJS = [['i', 1], ['s', 'a'], ['f', 2.5], ['none'], ['b', True], ['list', [
 def class_objs(c: int) -> list:
     I = ['inst', c]
     return [I, ['subinst', c], ['decoy', c], ['list', [I]], ['list', [['i', 1], I]], ['list', [I, ['i', 1]]],
-            ['list', [['decoy', c], I]], ['list', [I, ['decoy', c]]], ['tuple', [I, ['s', 'a']]], ['tuple', [['i', 1], I]],
-            ['tuple', [['i', 1], ['decoy', c]]], ['dict', [[['s', 'a'], I]]], ['dict', [[['s', 'a'], ['decoy', c]]]],
-            ['list', [['list', [I]]]], ['list', [['list', [['decoy', c]]]]], ['set', [I]]]
+            ['list', [['decoy', c], I]], ['list', [I, ['decoy', c]]], ['tuple', [['i', 1], I]],
+            ['tuple', [['i', 1], ['decoy', c]]], ['dict', [[['s', 'a'], I]]], ['list', [['list', [I]]]], ['set', [I]]]
 
 
 # ---------------------------------------------------------------------------
@@ -90,7 +89,9 @@ def lit_src(l, quote="'"):
 
 
 def render(e, quote="'") -> str:
-    """source text of a hint expression (the printer `showE` of Core/Fwd.lean, checked against it)"""
+    """source text of a hint expression; `source_tie` checks on every run that CPython's own parser reads the
+    text back as exactly this expression (the Lean model represents a string annotation by the expression it
+    parses to: `HExpr.quoted`)"""
     k = e[0]
     if k == 'n':
         return e[1]
@@ -612,7 +613,8 @@ def gen_program(rng: random.Random) -> dict:
 # ---------------------------------------------------------------------------
 def objspecs_of(stmts) -> list:
     out = list(BASE_OBJS)
-    for c in HELPER_CLASSES + class_ids(stmts):
+    uses_helper = any('hm' in names_of(d[3]) for d in all_defs(stmts))
+    for c in (HELPER_CLASSES if uses_helper else []) + class_ids(stmts):
         out += class_objs(c)
     return out
 
@@ -710,31 +712,42 @@ def scope_chain(stmts, fid=None):
     return find(stmts, [])
 
 
-def binds_of(stmts, name, chain_names, fid=None):
-    """where `name` is bound: list of (scope description relative to the def, 'pre'|'post')"""
+def binds_of(stmts, name, chain, fid=None):
+    """where `name` is bound: list of (site, 'pre'|'post', value kind). `chain` = [(kind, name, decorated-as-class)]
+    of the probed def. Sites are relative to the scope whose locals the decorator consults: classes decorated as a
+    whole (and the classes inside them) are skipped, so for a class-decorated method the function around the root
+    class is 'direct-fn' and the class defining the method is 'direct-cls'."""
     out = []
+    names = [(k, n) for k, n, _ in chain]
+    deco_from = next((i for i, (_, _, dc) in enumerate(chain) if dc), None)
 
-    def walk(sts, chain, seen_def):
+    def site(depth):
+        if depth == 0:
+            return 'global'
+        kind = chain[depth - 1][0]
+        innermost = len(chain)
+        if deco_from is None:
+            direct = depth == innermost
+        elif kind == 'cls':
+            direct = depth == innermost
+        else:
+            direct = depth == deco_from                 # the function just outside the decorated root class
+        return ('direct-' if direct else 'outer-') + kind
+
+    def walk(sts, cur, seen_def):
         for st in sts:
             if st[0] in ('cls', 'alias') and st[1] == name:
-                depth = len(chain)
-                if chain != chain_names[:depth]:
-                    where = 'elsewhere'
-                elif depth == 0:
-                    where = 'global'
-                else:
-                    dist = len(chain_names) - depth          # 0 = directly enclosing scope
-                    where = ('direct-' if dist == 0 else 'outer-') + chain[-1][0]
+                where = site(len(cur)) if cur == names[:len(cur)] else 'elsewhere'
                 kind = 'class' if st[0] == 'cls' else ('alias-class' if st[2][0] == 'n' else 'alias-hint')
                 out.append((where, 'post' if seen_def[0] else 'pre', kind))
             elif st[0] == 'def' and (fid is None or st[1] == fid):
                 seen_def[0] = True
             elif st[0] == 'func':
-                walk(st[3], chain + [('fn', st[1])], seen_def)
+                walk(st[3], cur + [('fn', st[1])], seen_def)
             elif st[0] == 'class':
                 if st[1] == name:
                     out.append(('self-class', 'post', 'class'))
-                walk(st[5], chain + [('cls', st[1])], seen_def)
+                walk(st[5], cur + [('cls', st[1])], seen_def)
     walk(stmts, [], [False])
     return out
 
@@ -755,6 +768,18 @@ def probe_context(stmts, tag):
                     return r
         return None
     return find(stmts, [])
+
+
+def term_has(t, kind) -> bool:
+    if t[0] == kind:
+        return True
+    if t[0] == 'via':
+        return term_has(t[1], kind)
+    if t[0] == 'sub':
+        return term_has(t[1], kind) or any(term_has(a, kind) for a in t[2])
+    if t[0] == 'bor':
+        return term_has(t[1], kind) or term_has(t[2], kind)
+    return False
 
 
 def cmp_vectors(actual, expected, free):
@@ -822,8 +847,22 @@ def evaluate(progs, models, reals, ex: Explore, stats: dict):
                 ex.failures.append(Failure(key=f'C07:definition-raises-NameError:{v}',
                                            what=f'variant {v}: the definition itself raises {rv["crash"]["exc"]}: {rv["crash"]["msg"]}',
                                            replay={'stmts': p['stmts'], 'variant': v, 'program': describe(p, v)}))
-            for tag, pr in rv['probes'].items():
+            prev_cache: set = set()
+            ambiguous = False
+            for tag in [t for t in mv['calls'] if t in rv['probes']] + [t for t in rv['probes'] if t not in mv['calls']]:
+                pr = rv['probes'][tag]
                 mc = mv['calls'].get(tag)
+                if mc is not None:
+                    # the model resolves every proxy at every call; the real check is lazy. They can only drift apart
+                    # when, at one call, some proxy raises while another one is resolved for the first time (the real
+                    # check may stop at the raising one): from there on this variant's run is not compared.
+                    now = {tuple(c) for c in mc['cache']}
+                    if now - prev_cache and term_has(mc['impl'], 'unres'):
+                        ambiguous = True
+                    prev_cache = now
+                if ambiguous:
+                    stats['skipped_lazy_ambiguous'] += 1
+                    continue
                 ex.evaluations += sum(1 for vec in pr['actual'] for a in vec if a != '-')
                 for vec in pr['actual']:
                     for a in vec:
@@ -952,6 +991,37 @@ def corpus() -> list:
     return out
 
 
+class _Always:
+    """stands in for the PRNG in the systematic enumeration: every optional probe is generated"""
+
+    def random(self):
+        return 0.0
+
+
+def systematic(full: bool) -> list:
+    """every placement x every scope of its chain x (bound before / after the decoration) + never bound, for one
+    bare class leaf; late aliases of a PEP hint and late dotted names at the module / outermost / innermost scope
+    (all scopes when `full`). Probes after the def, after every late binding, after every scope ends, at the end."""
+    out = []
+    for placement, chain in PLACEMENTS.items():
+        nsc = len(chain) + 1
+        cases = [('K', None, 'never', 'cls')]
+        for site in range(nsc):
+            for time in ('pre', 'post'):
+                cases.append(('K', site, time, 'cls'))
+            if full or site in (0, 1, nsc - 1):
+                cases.append(('K', site, 'post', 'alias_seq'))
+                cases.append(('K', site, 'post', 'holder'))
+        for name, site, time, kind in cases:
+            b = Builder(_Always(), placement)
+            binds = [] if time == 'never' else [(site, time, kind, False)]
+            leaf = A(N(name), 'In') if kind == 'holder' else N(name)
+            hint = leaf if kind != 'cls' or site is None or site % 2 == 0 else S(N('list'), leaf)
+            stmts = b.build(hint, [{'name': name, 'binds': binds, 'probe_after': True}], probe_after_def=True, end_probes=1)
+            out.append({'stmts': stmts, 'placement': placement, 'shape': f'systematic-{kind}-{time}'})
+    return out
+
+
 # ---------------------------------------------------------------------------
 # exploration
 # ---------------------------------------------------------------------------
@@ -960,26 +1030,34 @@ RULE = ('generated programs: one @beartype-checked callable at module level / in
         'classes, nested-class names, aliases of classes / PEP hints / unions, helper-module attributes, self references; every leaf '
         'bound before the decoration, after it, or never, in module / enclosing-function / class scope, with shadowing bindings; 4 '
         'variants (evaluated, whole string, from __future__ import annotations, strings at the names); probes inside the defining '
-        'frame, after it returned, after each late definition, at module end; each probe = verdict vector over 19 base objects + 16 '
+        'frame, after it returned, after each late definition, at module end; each probe = verdict vector over 19 base objects + 13 '
         'per class (instance, subclass instance, same-named decoy, containers) under forced draws 0 and 1. '
         'non-trivial = (placement, shape, variant, checked hint) whose vector holds an accept AND a reject')
 
 
 def new_stats() -> dict:
     return {'programs': 0, 'placements': {}, 'shapes': {}, 'ends': {}, 'outcomes': {}, 'deviations': {}, 'invisible_deviations': 0,
-            'cache_equal': 0, 'cache_subset': 0, 'nontrivial': set()}
+            'cache_equal': 0, 'cache_subset': 0, 'skipped_lazy_ambiguous': 0, 'nontrivial': set()}
 
 
-def explore(ck: Check, n: int, seed: int, with_corpus: bool = True, bear_every: int = 0) -> Explore:
+def explore(ck: Check, n: int, seed: int, with_corpus: bool = True, bear_every: int = 0, full: bool = False) -> Explore:
     rng = random.Random(seed)
     ex = Explore(rule=RULE)
     stats = new_stats()
-    progs = (corpus() if with_corpus else []) + [gen_program(rng) for _ in range(n)]
+    import time
+    t0 = time.time()
+    progs = (corpus() + systematic(full) if with_corpus else []) + [gen_program(rng) for _ in range(n)]
     models = run_model(progs)
+    t1 = time.time()
     reals = run_real(progs, models, bear_every=bear_every)
+    t2 = time.time()
     evaluate(progs, models, reals, ex, stats)
     bear_tie(progs, models, reals, ex, stats)
     source_tie(progs, ex, stats)
+    stats['wall_model_s'], stats['wall_real_s'], stats['wall_oracles_s'] = round(t1 - t0, 1), round(t2 - t1, 1), round(time.time() - t2, 1)
+    if ck is not None:
+        ck.log(f'[C07] explore: {len(progs)} programs; model {t1 - t0:.0f}s, real {t2 - t1:.0f}s, oracles+bear {time.time() - t2:.0f}s; '
+               f'{len(ex.failures)} raw failures, {len(ex.corr_diffs)} correspondence diffs')
     ex.distinct_nontrivial = len(stats.pop('nontrivial'))
     ex.extra.update({k: v for k, v in stats.items()})
     ex.samples = [{'placement': p['placement'], 'shape': p['shape'], 'program': describe(p, 'str')} for p in progs[-3:]]
@@ -1119,24 +1197,18 @@ def all_defs(stmts):
 # ---------------------------------------------------------------------------
 # canonical keys and shrinking
 # ---------------------------------------------------------------------------
-VISIBLE = {'global/pre', 'direct-fn/pre', 'direct-cls/pre'}
+WHERE_CLASS = {'global/pre': 'Vg', 'direct-fn/pre': 'Vf', 'direct-cls/pre': 'Vc', 'global/post': 'G',
+               'direct-fn/post': 'Lf', 'direct-cls/post': 'Lc', 'outer-fn/pre': 'Hf', 'outer-fn/post': 'Hf',
+               'outer-cls/pre': 'Hc', 'outer-cls/post': 'Hc', 'self-class/post': 'S'}
 
 
 def where_class(tokens: set) -> str:
-    """V = bound before the decoration in a scope the forward scope is documented to consult (module, directly
-    enclosing function / class); G = bound at module level after the decoration; S = the class being defined;
-    U = never bound; H = anything else (outer enclosing scopes, late local / class-attribute bindings)"""
-    out = set()
-    for t in tokens:
-        if t in VISIBLE:
-            out.add('V')
-        elif t == 'global/post':
-            out.add('G')
-        elif t.startswith('self-class'):
-            out.add('S')
-        else:
-            out.add('H')
-    return '+'.join(sorted(out)) or 'U'
+    """Vg/Vf/Vc = bound BEFORE the decoration at module level / in the directly enclosing function / in the class
+    defining the method (the scopes the forward scope is documented to consult); G = bound at module level after
+    the decoration; Lf/Lc = bound after it in the directly enclosing function / class body; Hf/Hc = bound in a
+    farther enclosing function / class; S = the class being defined itself; E = in a scope that does not enclose
+    the def; U = never bound"""
+    return '+'.join(sorted({WHERE_CLASS.get(t, 'E') for t in tokens})) or 'U'
 
 
 def signature(prog, variant, tag, impl, spec):
@@ -1149,7 +1221,7 @@ def signature(prog, variant, tag, impl, spec):
     e = expr_at(variant_expr(d[3], variant), path)
     name = chain_root(e) if is_chain(e) else '?'
     dotted = 'dotted' if e[0] == 'a' else 'bare'
-    binds = binds_of(prog['stmts'], name, [(k, n) for k, n, _ in chain], fid)
+    binds = binds_of(prog['stmts'], name, chain, fid)
     aa = a[0] if a[0] in ('unres', 'fake', 'via') else 'bound'
     bb = b[0] if b[0] in ('unres', 'fake', 'via') else 'bound'
     return (aa, bb, dotted, where_class({f'{w}/{t}' for w, t, _ in binds}), e)
@@ -1287,6 +1359,77 @@ def check_one(prog, variant, tag, model=None, real=None):
                         'impl_model_vector': pr.get('impl')}
 
 
+def unpredicted_key(prog, variant, tag, bad) -> str:
+    """identity of a failure the implementation model does not predict: placement chain, decoration kind, and for
+    every user name of the annotation how it is written and where/when it is bound, plus real->expected"""
+    fid = probe_fid(prog['stmts'], tag)
+    chain, d = scope_chain(prog['stmts'], fid)
+    e = d[3]
+    leaves = []
+
+    def walk(x):
+        if is_chain(x):
+            n = chain_root(x)
+            if n not in BUILTINS and (n == 'hm' or n not in PRELUDE):
+                binds = binds_of(prog['stmts'], n, chain, fid)
+                leaves.append(('dotted' if x[0] == 'a' else 'bare') + '@' + where_class({f'{w}/{t}' for w, t, _ in binds}))
+        elif x[0] == 'a':
+            walk(x[1])
+        elif x[0] == 's':
+            walk(x[1])
+            for y in x[2]:
+                walk(y)
+        elif x[0] == 'o':
+            walk(x[1])
+            walk(x[2])
+        elif x[0] == 'q':
+            walk(x[1])
+    walk(e)
+    place = '/'.join(k for k, _, _ in chain) or 'module'
+    deco = 'class-decorated' if any(dc for _, _, dc in chain) else 'def-decorated'
+    nested = 'plain' if is_chain(e) else 'nested'
+    return f'C07:unpredicted:{place}:{deco}:{nested}:{"+".join(sorted(leaves)) or "no-user-name"}:{bad[2]}-instead-of-{bad[3]}'
+
+
+def shrink_unpredicted(prog, variant, tag, rounds: int = 4):
+    """greedy statement / hint reduction with REAL runs (every single removal of a round in parallel)"""
+    cur = prog
+    for _ in range(rounds):
+        fid = probe_fid(cur['stmts'], tag)
+        _, d = scope_chain(cur['stmts'], fid)
+        alts = [drop_at(cur['stmts'], pos) for pos in removable_positions(cur['stmts'], tag, fid)]
+        leaves = [x for x in sub_exprs(d[3]) if is_chain(x) and x != d[3]]
+        alts = [set_hint(cur['stmts'], fid, x) for x in leaves[:3]] + alts
+        cands = [{**cur, 'stmts': st} for st in alts if still_refers(st, fid)][:24]
+        if not cands:
+            break
+        models = run_model(cands)
+        reals = run_real(cands, models)
+        nxt = None
+        for c, m, r in zip(cands, models, reals):
+            broken, det = check_one(c, variant, tag, m, r)
+            if broken and det['impl'] == det['spec']:
+                nxt = c
+                break
+        if nxt is None:
+            break
+        cur = nxt
+    return cur
+
+
+def sub_exprs(e):
+    yield e
+    if e[0] in ('a', 'q'):
+        yield from sub_exprs(e[1])
+    elif e[0] == 's':
+        yield from sub_exprs(e[1])
+        for x in e[2]:
+            yield from sub_exprs(x)
+    elif e[0] == 'o':
+        yield from sub_exprs(e[1])
+        yield from sub_exprs(e[2])
+
+
 def canonicalise(ex: Explore):
     """shrink every distinct failure; the key of a failure is the key of its shrunk program"""
     by_key: dict = {}
@@ -1314,9 +1457,29 @@ def canonicalise(ex: Explore):
             out.setdefault(key, nf)
         else:
             out.setdefault(f.key, f)
-    for f in by_key.values():
-        if f not in pred:
+    unpred = [f for f in by_key.values() if f.key.startswith('C07:unpredicted:')][:4]
+    for f in unpred:
+        variant, tag = f.replay['variant'], f.replay['tag']
+        sp = shrink_unpredicted({'stmts': f.replay['stmts'], 'placement': 'shrunk', 'shape': 'shrunk'}, variant, tag)
+        broken, det = check_one(sp, variant, tag)
+        if broken:
+            d, oi, a, e = det['bads'][0]
+            key = unpredicted_key(sp, variant, tag, det['bads'][0])
+            out.setdefault(key, Failure(
+                key=key,
+                what=f'variant {variant}, probe {tag} of the shrunk program: object #{oi} {objspecs_of(sp["stmts"])[oi]} under draw '
+                     f'{DRAWS[d]} gives {a}, the annotation written as evaluated objects gives {e}; the implementation model '
+                     f'predicts the specified hint {det["spec"]} (behaviour not covered by the model: correspondence broken too)',
+                replay={'stmts': sp['stmts'], 'variant': variant, 'tag': tag, 'object': oi, 'draw': DRAWS[d], 'real': a, 'expected': e,
+                        'program': describe(sp, variant), 'unshrunk_program': f.replay['program']}))
+        else:
             out.setdefault(f.key, f)
+    rest = [f for f in by_key.values() if f not in pred and f not in unpred]
+    # one behaviour the model does not cover shows up under many (placement, shape) pairs: the shrunk ones identify
+    # it; of the remaining raw ones only a few are kept
+    for f in [f for f in rest if not f.key.startswith('C07:unpredicted:')] + \
+            [f for f in rest if f.key.startswith('C07:unpredicted:')][:(0 if unpred else 2)]:
+        out.setdefault(f.key, f)
     ex.failures = list(out.values())
 
 
@@ -1359,7 +1522,7 @@ def replay(data: dict) -> int:
 def main(ck: Check) -> int:
     quick = ck.tier == 'quick'
     proof = ck.prove(MODULE, PROP_FILE)
-    ex = explore(ck, n=230 if quick else 2400, seed=ck.seed, bear_every=6 if quick else 4)
+    ex = explore(ck, n=110 if quick else 2000, seed=ck.seed, bear_every=6 if quick else 4, full=not quick)
     canonicalise(ex)
     ck.decide(proof, ex, deep_search=lambda: deep(ck))
     ck.evidence(proof, ex,
